@@ -283,6 +283,59 @@ static std::string run(const Sx& c) {
       o << (first ? "" : " ") << "(" << sx_vd(a) << " " << sx_vd(b) << " " << sx_vd(d) << ")"; first = false;
     }
     o << "))";
+  } else if (kind == 10) {    // session: one object, a sequence of const queries (see coq/C16/Run.v for the encodings)
+    GSpec s = readG(c[1]); Grid g0; bool mok = makeGrid(s, g0);
+    DbGrid* db = makeDbGrid(s, true);
+    if (db != nullptr && !dbMatOk(s, db)) mok = false;
+    // every Grid query goes to the SAME object: the grid of the DbGrid when there is one
+    const Grid& G = (db != nullptr) ? db->getGrid() : g0;
+    o << "(";
+    bool first = true;
+    for (auto& q : c[2].l) {
+      int f = (int) q[0].i();
+      std::ostringstream a;
+      if (f == 0) a << sx_d(G.getCoordinate((int) q[1].i(), (int) q[2].i(), true));
+      else if (f == 1) a << sx_d(db != nullptr ? db->getCoordinate((int) q[1].i(), (int) q[2].i()) : G.getCoordinate((int) q[1].i(), (int) q[2].i(), true));
+      else if (f == 20) a << sx_d(G.rankToCoordinate((int) q[2].i(), (int) q[1].i()));
+      else if (f == 2) { VI idx(s.ndim, 0); G.rankToIndice((int) q[1].i(), idx, false); a << sx_vi(idx); }
+      else if (f == 3) { VI ind = q[1].vi(); a << G.indiceToRank(ind); }
+      else if (f == 4) a << G.coordinateToRank(toVD(q[1].vd()), q[2].b(), q[3].d());
+      else if (f == 19) a << (db != nullptr ? db->coordinateToRank(toVD(q[1].vd()), q[2].b(), q[3].d()) : G.coordinateToRank(toVD(q[1].vd()), q[2].b(), q[3].d()));
+      else if (f == 5) { VectorInt idx(s.ndim); int err = G.coordinateToIndicesInPlace(toVD(q[1].vd()), idx, q[2].b(), q[3].d()); a << "(" << (err != 0 ? 1 : 0) << " " << sx_vi(deepi(idx)) << ")"; }
+      else if (f == 6) a << sx_vd(deep(G.getCoordinatesByRank((int) q[1].i(), true)));
+      else if (f == 9) a << sx_vd(deep(G.rankToCoordinates((int) q[1].i())));
+      else if (f == 18) a << sx_vd(deep(db != nullptr ? db->getCoordinatesPerSample((int) q[1].i()) : G.getCoordinatesByRank((int) q[1].i(), true)));
+      else if (f == 7) a << sx_vd(deep(G.getCoordinatesByIndice(toVI(q[1].vi()), true)));
+      else if (f == 8) a << sx_vd(deep(G.getCoordinatesByCorner(toVI(q[1].vi()))));
+      else if (f == 10) a << (G.sampleBelongsToCell(toVD(q[1].vd()), (int) q[2].i()) ? 1 : 0);
+      else if (f == 11) a << sx_vi(deepi(G.getCenterIndices()));
+      else if (f == 12 || f == 13 || f == 14) {
+        VectorInt nx(s.ndim); VectorDouble dx(s.ndim), x0(s.ndim);
+        for (int d = 0; d < s.ndim; d++) { nx[d] = -777; dx[d] = TEST; x0[d] = TEST; }
+        if (f == 12) G.multiple(toVI(q[1].vi()), q[2].b(), nx, dx, x0);
+        else if (f == 13) G.divider(toVI(q[1].vi()), q[2].b(), nx, dx, x0);
+        else G.dilate((int) q[2].i(), toVI(q[1].vi()), nx, dx, x0);
+        VI nxc = deepi(nx); bool ok = true; for (int v : nxc) if (v <= 0) ok = false;
+        if (ok) a << "(1 " << sx_vi(nxc) << " " << sx_vd(deep(dx)) << " " << sx_vd(deep(x0)) << ")"; else a << "(0)";
+      }
+      else if (f == 15) a << sx_vd(deep(G.indicesToCoordinate(toVI(q[1].vi()), toVD(q[2].vd()))));
+      else if (f == 16) a << sx_vd(deep(G.getCellCoordinatesByCorner((int) q[1].i(), toVI(q[2].vi()))));
+      else if (f == 17) {
+        int k = (int) q[1].i(); Grid& GI = const_cast<Grid&>(G);   // same object (it is not const itself)
+        GI.iteratorInit();
+        a << "("; for (int i = 0; i < k; i++) a << (i ? " " : "") << sx_vi(deepi(GI.iteratorNext())); a << ")";
+      }
+      else if (f == 21) { VI ind = q[1].vi(); a << sx_d(G.indiceToCoordinate((int) q[2].i(), ind, {}, true)); }
+      else if (f == 22) {
+        VD coor = q[1].vd(); VI pidx(s.ndim, 0);
+        if (db != nullptr) { int pout = point_to_grid(db, coor.data(), -1, pidx.data()); a << "(" << (pout != 0 ? 1 : 0) << " " << sx_vi(pidx) << ")"; }
+        else { VectorInt idx(s.ndim); int err = G.coordinateToIndicesInPlace(toVD(coor), idx, true, 0.); a << "(" << (err != 0 ? 1 : 0) << " " << sx_vi(deepi(idx)) << ")"; }
+      }
+      else a << "(-997 4)";
+      o << (first ? "" : " ") << a.str(); first = false;
+    }
+    o << " " << (mok ? 1 : 0) << ")";
+    delete db;
   } else o << "(-997 1)";
   return o.str();
 }
